@@ -97,7 +97,8 @@ def _bindings(fnode) -> List[Tuple[str, ast.AST, str, str]]:
             out.append((n.name, n.type, 'except', ''))
         elif isinstance(n, ast.NamedExpr):
             out.append((n.target.id, n.value, 'walrus', ''))
-    out.sort(key=lambda b: (getattr(b[1], 'lineno', 0), getattr(b[1], 'col_offset', 0)) if b[1] is not None else (0, 0))
+    # traversal order (statement order of the function as it stands), not line numbers: inlined statements keep the line numbers of the
+    # helper they came from
     return out
 
 
